@@ -70,6 +70,9 @@ type BlockPipeline struct {
 	validatedChan chan *BlockItem
 	resultsChan   chan *BlockItem
 	errorsChan    chan error
+	// submitToken serialises the allocate-and-send step of Submit so that a
+	// sequence number is consumed only by a submission that was enqueued.
+	submitToken chan struct{}
 
 	// Metrics
 	metrics *PipelineMetrics
@@ -133,6 +136,7 @@ func (p *BlockPipeline) Start(ctx context.Context) error {
 	p.decodedChan = make(chan *BlockItem, bufSize)
 	p.resultsChan = make(chan *BlockItem, bufSize)
 	p.errorsChan = make(chan error, bufSize)
+	p.submitToken = make(chan struct{}, 1)
 
 	// Create decode stage
 	p.decodeStage = NewDecodeStage(p.config.SkipBodyHashValidation)
@@ -225,18 +229,28 @@ func (p *BlockPipeline) Submit(ctx context.Context, blockType uint, rawCbor []by
 		return ErrPipelineStopped
 	}
 
-	// Allocate sequence number only once, then send.
-	// We use a single blocking select to avoid sequence gaps that would occur
-	// if we allocated in a non-blocking attempt that failed.
-	item := NewBlockItem(blockType, rawCbor, tip, p.sequenceCounter.Add(1)-1)
+	// Only one submitter at a time may allocate a sequence number and send.
+	// The number is consumed only when the send succeeds, so a submission that
+	// fails (caller's context expired, pipeline stopping) leaves no gap for the
+	// apply stage to wait on, and numbers are enqueued in allocation order.
+	select {
+	case p.submitToken <- struct{}{}:
+	case <-ctx.Done():
+		return ctx.Err()
+	case <-p.ctx.Done():
+		return ErrPipelineStopped
+	}
+	defer func() { <-p.submitToken }()
+
+	item := NewBlockItem(blockType, rawCbor, tip, p.sequenceCounter.Load())
 
 	select {
 	case p.submitChan <- item:
+		p.sequenceCounter.Add(1)
 		p.metrics.RecordSubmit()
 		return nil
 	case <-ctx.Done():
-		// Context cancelled while waiting - sequence gap is acceptable
-		// because this typically means shutdown.
+		// Nothing was enqueued and no sequence number was consumed.
 		return ctx.Err()
 	case <-p.ctx.Done():
 		return ErrPipelineStopped
